@@ -102,8 +102,10 @@ void bundle_t::delete_largest(const tensor_size_t count)
         m_alphas.slice(0, size()) = m_bundleE.slice(0, size());
         std::nth_element(m_alphas.begin(), m_alphas.begin() + (size() - count), m_alphas.begin() + size());
 
-        m_size = remove_if([&, thres = m_alphas(count) - epsilon0<scalar_t>()](const tensor_size_t i)
-                           { return m_bundleE(i) > thres; });
+        // NB: the threshold must not lie above the partition point, otherwise fewer than `count` entries are removed
+        //     and the bundle overflows at the next update!
+        m_size = remove_if([&, thres = m_alphas(std::min(count, size() - count))](const tensor_size_t i)
+                           { return m_bundleE(i) >= thres; });
 
         append_aggregate();
     }
